@@ -57,6 +57,14 @@ def tree(rng: random.Random, max_entries=14, max_depth=5, links=True, small_alph
                 continue
             tgt = rng.choice(cands)
             rel = posixpath.relpath(tgt["path"], posixpath.dirname(p) or ".")
+            # other spellings of the same target: the link text is member content and has to come back as written
+            sp = rng.random()
+            if sp < 0.12 and not rel.startswith("."):
+                rel = "./" + rel
+            elif sp < 0.2 and tgt["kind"] == "dir":
+                rel = rel + "/"
+            elif sp < 0.27 and "/" in rel:
+                rel = rel.replace("/", "//", 1)
             entries.append({"path": p, "kind": "link", "target": rel, "to": tgt["kind"], "to_path": tgt["path"]})
     return entries
 
